@@ -394,6 +394,156 @@ func genC20Fee(rep *Report, seed uint64, tier string, outdir string) {
 		}
 		texts = append(texts, text)
 	}
+	texts = append(texts, genC20FeeSequences(rep, e, checker, seed, tier, nCases+1)...)
 	rep.Notes = append(rep.Notes, fmt.Sprintf("fee: %d configurations x (8 gas limits x ~24 fee sets incl. required-1/required/required+1 per denom) in check, re-check and deliver mode", nCases))
 	writeShards(outdir, "C20fee", feeCaseHeader, "run_feecase", "feecase", texts, 8, rep)
+}
+
+// Sequences on ONE long-lived context: the node's configured floor is put into the context once
+// (its DecCoins slice is shared by every context derived from it, as in a running node); between
+// calls the chain floor moves up and down (params update).  Every decision is compared with the
+// arithmetic oracle computed from the CONFIGURED node prices - the harness's own copy, never read
+// back from the context - and the current chain prices; after every call the context's node
+// prices and the stored chain prices must still equal the harness's copies (purity).
+func genC20FeeSequences(rep *Report, e *L2Env, checker opchildante.MempoolFeeChecker, seed uint64, tier string, firstID int) []string {
+	nSeq, nSteps := 6, 10
+	if tier == "thorough" {
+		nSeq, nSteps = 60, 20
+	}
+	vals := c20PriceValues()
+	small := []*big.Int{big.NewInt(1000000000000000000), big.NewInt(2000000000000000000), big.NewInt(5000000000000000000), big.NewInt(150000000000000000), big.NewInt(7)}
+	r := NewRng(seed*7919 + 24)
+	var texts []string
+	id := firstID
+	same := func(dc sdk.DecCoins, v amtVec) bool {
+		got, ok := decCoinsToVec(dc)
+		return ok && got.Coq() == v.Ov().Coq()
+	}
+	for q := 0; q < nSeq; q++ {
+		var node amtVec
+		if q == 0 { // the scripted ratchet: node 1, chain 5, any check, chain 2, check with fee 2*gas
+			node = amtVec{new(big.Int).Set(small[0]), nil, nil}
+		} else {
+			node = c20RandVec(r, append(append([]*big.Int{}, vals...), small...), 25, 5)
+		}
+		nodeCopy := append(amtVec{}, node...) // the harness's record of what was configured
+		for i, a := range nodeCopy {
+			if a != nil {
+				nodeCopy[i] = new(big.Int).Set(a)
+			}
+		}
+		long, _ := e.Ctx.CacheContext()
+		long = long.WithMinGasPrices(node.DecCoins()) // this slice lives as long as the sequence
+		purityReported := false
+		var history []string
+		history = append(history, fmt.Sprintf("one context for the whole sequence; configured node prices = %s", nodeCopy.Coq()))
+		for st := 0; st < nSteps; st++ {
+			var chain amtVec
+			switch {
+			case q == 0 && st == 0:
+				chain = amtVec{new(big.Int).Set(small[2]), nil, nil}
+			case q == 0 && st == 1:
+				chain = amtVec{new(big.Int).Set(small[1]), nil, nil}
+			case st%2 == 0: // mostly above the node ...
+				chain = c20RandVec(r, append([]*big.Int{vals[9], vals[10], small[2]}, vals...), 20, 5)
+			default: // ... then low again
+				chain = c20RandVec(r, []*big.Int{big.NewInt(1), big.NewInt(7), small[3], small[1]}, 35, 10)
+			}
+			ps, err := e.K.GetParams(long)
+			if err != nil {
+				panic(err)
+			}
+			ps.MinGasPrices = chain.DecCoins()
+			if err := e.K.Params.Set(long, ps); err != nil {
+				panic(err)
+			}
+			history = append(history, fmt.Sprintf("params update: chain prices := %s", chain.Coq()))
+			comb, _ := decCoinsToVec(opchildante.CombinedMinGasPrices(nodeCopy.DecCoins(), chain.DecCoins()))
+			obs := []Ov{comb}
+			var queries []feeQuery
+			for _, g := range []uint64{1000, 1000000} {
+				for si, fee := range c20FeeSets(r, g, nodeCopy, chain) {
+					if si%3 == 0 || si < 8 {
+						queries = append(queries, feeQuery{1 + si%2, g, fee})
+					}
+				}
+			}
+			id++
+			adm, rej := false, false
+			for qi, qu := range queries {
+				b := e.Enc.TxConfig.NewTxBuilder()
+				b.SetGasLimit(qu.Gas)
+				b.SetFeeAmount(qu.Fee.Coins())
+				tx := b.GetTx()
+				ctx := long.WithIsCheckTx(true) // derived from the long-lived context
+				if qu.Mode == 2 {
+					ctx = long.WithIsReCheckTx(true)
+				}
+				if qi%2 == 1 {
+					ctx, _ = ctx.CacheContext()
+				}
+				var err error
+				func() {
+					defer func() {
+						if p := recover(); p != nil {
+							err = fmt.Errorf("panic: %v", p)
+						}
+					}()
+					_, _, err = checker.CheckTxFeeWithMinGasPrices(ctx, tx)
+				}()
+				got := err == nil
+				obs = append(obs, obool(got))
+				want := c20FeeOracle(qu.Mode, qu.Gas, nodeCopy, chain, qu.Fee)
+				if got {
+					adm = true
+				} else {
+					rej = true
+				}
+				rep.Hist(fmt.Sprintf("fee-sequence:%v", got))
+				viol := func(sig, what string) {
+					n := len(history)
+					from := 1
+					if n > 9 {
+						from = n - 8
+					}
+					ops := append([]string{history[0]}, history[from:]...)
+					ops = append(ops, "query (mode, gas, fee) = "+qu.Coq())
+					rep.Violate(Violation{Case: id, Step: qi + 1, What: what, Sig: sig, Ops: ops})
+				}
+				if got != want {
+					errs := ""
+					if err != nil {
+						errs = ": " + err.Error()
+					}
+					if want {
+						viol("C20:fee-rejected-at-or-above-floor", "on a long-lived context: rejected although a denom with a positive floor (larger of the CONFIGURED node price and the CURRENT chain price) carries the required fee"+errs)
+					} else {
+						viol("C20:fee-admitted-below-floor", "on a long-lived context: admitted below the floor given by the configured node prices and the current chain prices")
+					}
+				}
+				if !purityReported && !same(long.MinGasPrices(), nodeCopy) {
+					purityReported = true // once per sequence; the sequence goes on with the modified context
+					now, _ := decCoinsToVec(long.MinGasPrices())
+					viol("C20:node-prices-modified", fmt.Sprintf("after the call the context's node prices are %s, configured were %s: the fee checker wrote into the node's configured floor", now.Coq(), nodeCopy.Coq()))
+				}
+				if mg, err := e.K.MinGasPrices(long); err != nil || !same(mg, chain) {
+					viol("C20:chain-prices-modified", "after the call the stored chain prices differ from what the params update wrote")
+				}
+			}
+			rep.Ops += len(queries)
+			var qs, os []string
+			for _, qu := range queries {
+				qs = append(qs, qu.Coq())
+			}
+			for _, o := range obs {
+				os = append(os, o.Coq())
+			}
+			text := fmt.Sprintf("(%d%%N,\n {| fc_node := %s; fc_chain := %s;\n    fc_queries := [\n      %s] |},\n [%s])",
+				id, nodeCopy.Coq(), chain.Coq(), strings.Join(qs, ";\n      "), strings.Join(os, "; "))
+			rep.CountCase(text, adm && rej)
+			texts = append(texts, text)
+		}
+	}
+	rep.Notes = append(rep.Notes, fmt.Sprintf("fee, long-lived context: %d sequences x %d steps; one context (node prices put in once, contexts derived from it per call), chain prices moved up and down by params updates between calls; oracle from the configured node prices; purity of node and chain prices checked after every call", nSeq, nSteps))
+	return texts
 }
